@@ -100,6 +100,11 @@ type ScanRefsOptions struct {
 
 	// SkippedRefs provides a list of refs to ignore.
 	SkippedRefs []string
+	// NoRemoteRefs is set when every locally cached remote-tracking ref
+	// of the remote is known to be stale: then no remote-tracking ref may
+	// be assumed to be present on the remote, even though SkippedRefs is
+	// empty.
+	NoRemoteRefs bool
 	// Mutex guards names.
 	Mutex *sync.Mutex
 	// Names maps Git object IDs (encoded as hex using
@@ -251,7 +256,7 @@ func revListArgs(include, exclude []string, opt *ScanRefsOptions) (io.Reader, []
 		args = append(args, "--all")
 	case ScanRangeToRemoteMode:
 		args = append(args, "--ignore-missing")
-		if len(opt.SkippedRefs) == 0 {
+		if len(opt.SkippedRefs) == 0 && !opt.NoRemoteRefs {
 			args = append(args, "--not", "--remotes="+opt.Remote)
 			stdin = strings.NewReader(strings.Join(
 				includeExcludeShas(include, exclude), "\n"))
